@@ -214,7 +214,7 @@ Scenarios ==
 
 \* Histories through psd_microporous(adsorbate_model=None): the adsorbate parameters (incl. the liquid density at the
 \* isotherm's temperature) are looked up per call; the result of a call is a function of ITS isotherm only.
-\* Configurations: the same adsorbate at two temperatures, another adsorbate at one of them; every order of length 3.
+\* Configurations: the same adsorbate at two temperatures, two other adsorbates at one of them; every order of length 3.
 \* Representations in which the isotherm handed to psd_microporous is stored (the method reads relative pressure;
 \* absolute ones need a saturation pressure, i.e. T below the adsorbate's critical temperature - else the relative
 \* representation with the same temperature unit is used)
@@ -226,7 +226,10 @@ ApiStorage == <<
    [name |-> "kPa-C", pressure_mode |-> "absolute", pressure_unit |-> "kPa", temperature_unit |-> "°C"],
    [name |-> "torr-K", pressure_mode |-> "absolute", pressure_unit |-> "torr", temperature_unit |-> "K"],
    [name |-> "relative-C", pressure_mode |-> "relative", pressure_unit |-> "none", temperature_unit |-> "°C"] >>
-HistConfigs == <<[ads |-> "N2", T |-> DL(7735, -2)], [ads |-> "N2", T |-> DL(873, -1)], [ads |-> "Ar", T |-> DL(873, -1)]>>
+\* ("stored": a user-defined adsorbate without thermodynamic backend; its liquid density and molar mass are the stored
+\* properties the user gave - input data)
+HistConfigs == <<[ads |-> "N2", T |-> DL(7735, -2)], [ads |-> "N2", T |-> DL(873, -1)], [ads |-> "Ar", T |-> DL(873, -1)],
+                 [ads |-> "stored", T |-> DL(873, -1)]>>
 Histories == [1..3 -> 1..Len(HistConfigs)]
 
 ---------------------------------------------------------------------------
